@@ -48,8 +48,10 @@ PickRW == LET ok  == {c \in Calls : Useful(c) /\ Fits(c) /\ ArchiveOK(c)}
               all == {c \in Calls : Fits(c) /\ ArchiveOK(c)}
           IN {RandomElement(IF RandomElement(1..100) <= OkBias /\ ok # {} THEN ok ELSE all)}
 \* read-only phase: half of the calls aim at existing entries
-PickRO == LET hit == {c \in ROCalls : c.p \in DOMAIN ref}
-          IN {RandomElement(IF RandomElement(1..100) <= 60 /\ hit # {} THEN hit ELSE ROCalls)}
+PickRO == LET hit  == {c \in ROCalls : c.p \in DOMAIN ref}
+              ro   == {c \in hit : c.op = "OpenHandle" /\ c.k = 0 /\ ref[c.p].kind = "file"}   \* handles obtained read-only
+              k    == RandomElement(1..100)
+          IN {RandomElement(IF k <= 30 /\ ro # {} THEN ro ELSE IF k <= 70 /\ hit # {} THEN hit ELSE ROCalls)}
 
 Entry(lst, ph) == [call |-> lst.call, res |-> lst.res, phase |-> ph,
                    content |-> IF lst.call.p \in DOMAIN ref /\ ref[lst.call.p].kind = "file" THEN ref[lst.call.p].content ELSE <<>>,
